@@ -24,6 +24,7 @@ mod c19;
 mod c20;
 mod dynaut;
 mod core;
+mod hooks;
 mod memtrack;
 mod wrap;
 
@@ -85,6 +86,7 @@ fn run_cases(p: &dyn Prop, cases: &[String]) -> Vec<String> {
                     let r = panic::catch_unwind(panic::AssertUnwindSafe(|| p.execute(c)));
                     let line = match r {
                         Ok(l) => l,
+                        Err(e) if e.downcast_ref::<hooks::NoHook>().is_some() => "S:NOHOOK\tM:NOHOOK".to_string(),
                         Err(e) => {
                             let msg = if let Some(s) = e.downcast_ref::<&str>() {
                                 s.to_string()
